@@ -28,10 +28,13 @@ pub struct Base {
 pub fn base_streams(seed: u64, count: usize) -> Vec<Base> {
     let mut v = vec![];
     let mut i = 0u64;
-    while v.len() < count && i < 400 {
+    while v.len() < count && i < 1000 {
         let mut rng = Rng::for_case(seed, "C16.base", i);
         i += 1;
-        let k = v.len();
+        // the recipe follows the ATTEMPT, not the number of streams kept so far: a recipe whose
+        // stream is refused (too long, undecodable) must not be tried again and again (until round
+        // 10 it was - recipe 7 never fits 1400 bytes, so only 7 base streams ever existed)
+        let k = (i - 1) as usize;
         let bps = gen::WIDTHS[k % 5];
         let channels = [1usize, 2, 2, 3][k % 4];
         let block = [32usize, 64, 96, 192, 128][(k / 2) % 5];
